@@ -176,7 +176,7 @@ def old_mtime(path, content):
         os.utime(path, (946684800, 946684800))
 
 
-def impl_apply(content, cons):
+def impl_apply(content, cons, destructive=True):
     """ apply_to_file on a freshly opened file: (return value, fd.tell()) """
     core.import_searchkit()
     c = make_constraint(cons)
@@ -187,7 +187,8 @@ def impl_apply(content, cons):
     try:
         with open(path, 'rb') as fd:
             try:
-                ret = c.apply_to_file(fd)
+                ret = c.apply_to_file(fd) if destructive else \
+                    c.apply_to_file(fd, destructive=False)
                 return {'pos': fd.tell(), 'ret': ret}
             except Exception as ex:  # pylint: disable=broad-except
                 return {'err': classify(ex)}
@@ -247,9 +248,11 @@ def gen_since(rng, times, kind):
         if rng.random() < 0.3:
             cons['hours'] = rng.choice([0, 5, 24])
     else:
-        hours = rng.choice([1, 12, 24, 100])
+        hours = rng.choice([0, 1, 12, 24, 100])       # hours=0: the window is empty, since = now
         cur = since + timedelta(hours=hours)
         cons = {'current': cur.strftime('%Y-%m-%d %H:%M:%S'), 'hours': hours}
+        if hours == 0 and rng.random() < 0.5:
+            cons['days'] = 0
         if hours == 24 and rng.random() < 0.5:
             del cons['hours']
     cons['matcher'] = kind
